@@ -108,9 +108,12 @@ fn long_int(rng: &mut Rng) -> Val {
 }
 
 fn gen_nested(rng: &mut Rng) -> WOp {
-    let k = rng.usize_below(4);
+    let k = rng.usize_below(7);
     let int = |rng: &mut Rng, t: IntTy| gen_val(rng, ElemTy::Int(t), true);
     let groups: Vec<Vec<Val>> = match k {
+        4 => vec![vec![int(rng, IntTy::U32), int(rng, IntTy::I64)]],
+        5 => (0..rng.urange(0, 4)).map(|_| vec![int(rng, IntTy::U32), int(rng, IntTy::I64)]).collect(),
+        6 => vec![vec![gen_val(rng, ElemTy::Str, false), int(rng, IntTy::U64)]],
         0 => (0..rng.urange(0, 4)).map(|_| (0..rng.urange(0, 4)).map(|_| int(rng, IntTy::I64)).collect()).collect(),
         1 => (0..rng.urange(0, 4)).map(|_| vec![int(rng, IntTy::I32), gen_val(rng, ElemTy::Str, false)]).collect(),
         2 => vec![(0..rng.urange(0, 5)).map(|_| int(rng, IntTy::U8)).collect(), vec![int(rng, IntTy::I32)]],
@@ -120,7 +123,7 @@ fn gen_nested(rng: &mut Rng) -> WOp {
 }
 
 fn gen_value_op(rng: &mut Rng, ws_free: bool, allow_macro: bool) -> WOp {
-    if !ws_free && rng.chance(1, 16) {
+    if !ws_free && rng.chance(1, 10) {
         return gen_nested(rng);
     }
     match rng.below(if allow_macro { 14 } else { 12 }) {
